@@ -736,6 +736,14 @@ class SyncRun:
         self.w.mailbox_set()._set[name]._readonly = True
         self._known_uids = self.store_uids()
 
+    def deliver_external(self, mbx: str = 'INBOX') -> None:
+        """maildir only: a mail delivery agent drops a file into new/ (no info suffix, no UID
+        record) behind the server's back"""
+        from . import maildirsrv
+        self._ext = getattr(self, '_ext', 0) + 1
+        name = maildirsrv.deliver(self.w, mbx, self._ext)
+        self.events.append({'e': 'external', 'mbx': mbx, 'file': name})
+
     def close(self) -> None:
         self.w.close()
 
@@ -814,7 +822,8 @@ def _tup(x):
 
 
 _RECORDED = ('issue', 'step', 'micro', 'finish', 'quiesce', 'probe', 'idlecheck', 'reconnect',
-             'unanswered_idle', 'cancel', 'drop', 'dump', 'state_event', 'gate', 'make_readonly_box')
+             'unanswered_idle', 'cancel', 'drop', 'dump', 'state_event', 'gate', 'make_readonly_box',
+             'deliver_external')
 
 
 def _recording(name, fn):
